@@ -32,18 +32,28 @@ where
     )
     .await
     {
+        #[cfg(zinoma_verif)]
+        crate::verif::point("incr_checked", &target.id.to_string(), &[("skip", "true".to_string())]).await;
         return Ok(IncrementalRunResult::Skipped);
     }
+    #[cfg(zinoma_verif)]
+    crate::verif::point("incr_checked", &target.id.to_string(), &[("skip", "false".to_string())]).await;
 
     storage::delete_saved_env_state(target).await?;
+    #[cfg(zinoma_verif)]
+    crate::verif::point("incr_deleted", &target.id.to_string(), &[]).await;
 
     let build_report = future.await?;
+    #[cfg(zinoma_verif)]
+    crate::verif::point("incr_script_done", &target.id.to_string(), &[]).await;
 
     match build_report {
         BuildTerminationReport::Cancelled => Ok(IncrementalRunResult::Cancelled),
         BuildTerminationReport::Completed => {
             match TargetEnvState::current(target_input, target_output).await {
                 Ok(Some(env_state)) => {
+                    #[cfg(zinoma_verif)]
+                    crate::verif::point("incr_computed", &target.id.to_string(), &[]).await;
                     if let Err(e) = storage::save_env_state(target, env_state).await {
                         log::warn!(
                             "{} - Failed to save state of inputs and outputs: {}",
@@ -60,6 +70,8 @@ where
                 ),
             }
 
+            #[cfg(zinoma_verif)]
+            crate::verif::point("incr_saved", &target.id.to_string(), &[]).await;
             Ok(IncrementalRunResult::Completed)
         }
     }
